@@ -2801,3 +2801,469 @@ Proof.
   - rewrite F1, F2. reflexivity.
   - rewrite F1. exact Ht0.
 Qed.
+(* ================================================================ the merge always returns, and its result is again a level *)
+Lemma merge_main_total : forall oper l1 l2 fuel p q acc, ((length l1 - p) + (length l2 - q) < fuel)%nat ->
+  exists res, merge_main fuel oper l1 l2 p q acc = Some res.
+Proof.
+  intros oper l1 l2. induction fuel as [|fuel IH]; intros p q acc Hf; [lia|].
+  cbn [merge_main]. destruct (Nat.ltb (p + 1) (length l1) && Nat.ltb (q + 1) (length l2)) eqn:E; [|eexists; reflexivity].
+  apply andb_prop in E. destruct E as [E1 E2]. apply Nat.ltb_lt in E1. apply Nat.ltb_lt in E2.
+  destruct (Qlt_bool (fst (nthp l1 p)) (fst (nthp l2 q))); [apply IH; lia|].
+  destruct (Qlt_bool (fst (nthp l2 q)) (fst (nthp l1 p))); apply IH; lia.
+Qed.
+Lemma merge_level_total : forall oper l1 l2, exists r, merge_level oper l1 l2 = Some r.
+Proof.
+  intros oper l1 l2. unfold merge_level.
+  destruct (merge_main_total oper l1 l2 (S (length l1 + length l2)) 0 0 [] ltac:(lia)) as [[[p q] acc] E]. rewrite E.
+  eexists; reflexivity.
+Qed.
+
+(* a level as the constructor and the operations produce it *)
+Definition level3 (l : list pt) : Prop :=
+  xsorted l /\ (3 <= length l)%nat /\ fst (nthp l 0) == - INF /\ fst (nthp l (length l - 1)) == INF /\
+  snd (nthp l 0) == 0 /\ snd (nthp l 1) == 0 /\ snd (nthp l (length l - 2)) == 0 /\ snd (nthp l (length l - 1)) == 0.
+Lemma level3_ok : forall l, level3 l -> level_ok l.
+Proof. intros l [A [B [C [D [E [F [G H]]]]]]]. unfold level_ok. split; [exact A|]. split; [lia|]. split; [exact C|]. split; [exact D|]. split; [exact G | exact H]. Qed.
+Lemma zero_head : forall l x, xsorted l -> (2 <= length l)%nat -> snd (nthp l 0) == 0 -> snd (nthp l 1) == 0 ->
+  x <= fst (nthp l 1) -> interp l x == 0.
+Proof.
+  intros l x Hs Hlen Y0 Y1 Hx. destruct (Qlt_le_dec x (fst (nthp l 0))) as [Hlt|Hle].
+  - assert (Hne : l <> []) by (destruct l; [simpl in Hlen; lia | discriminate]).
+    rewrite (interp_left l x Hne) by lra. exact Y0.
+  - rewrite (interp_segment_closed l 0 x Hs) by (simpl; auto; lia). unfold line_val. simpl Nat.add. rewrite Y0, Y1. ring.
+Qed.
+
+Section MergeLevelFull.
+  Variable oper : Q -> Q -> Q.
+  Hypothesis oper_comp : forall a a' b b', a == a' -> b == b' -> oper a b == oper a' b'.
+  Hypothesis oper_lin : forall y1 y2 y1' y2' s,
+    oper (y1 + (y2 - y1) * s) (y1' + (y2' - y1') * s) == oper y1 y1' + (oper y2 y2' - oper y1 y1') * s.
+  Hypothesis oper_00 : oper 0 0 == 0.
+
+  (* the common end of both cases: acc followed by the rest of one operand (the other being 0 there) and the sentinel *)
+  Lemma assemble_full : forall l1 l2 acc tail,
+    xsorted l1 -> xsorted l2 -> (2 <= length l1)%nat -> (2 <= length l2)%nat ->
+    fst (nthp l1 (length l1 - 1)) == INF -> fst (nthp l2 (length l2 - 1)) == INF ->
+    snd (nthp l1 (length l1 - 1)) == 0 -> snd (nthp l2 (length l2 - 1)) == 0 ->
+    xsorted acc -> xsorted tail ->
+    (forall a b, In a acc -> In b tail -> fst a < fst b) ->
+    (forall a, In a acc -> fst a < INF) -> (forall b, In b tail -> fst b < INF) ->
+    (forall a, In a (acc ++ tail) -> snd a == oper (interp l1 (fst a)) (interp l2 (fst a))) ->
+    (forall i, (i < length l1 - 1)%nat -> exists a, In a (acc ++ tail) /\ fst a == fst (nthp l1 i)) ->
+    (forall j, (j < length l2 - 1)%nat -> exists a, In a (acc ++ tail) /\ fst a == fst (nthp l2 j)) ->
+    let r := acc ++ tail ++ [(INF, 0)] in
+    xsorted r /\ (forall p, In p l1 -> exists q, In q r /\ fst q == fst p) /\ (forall p, In p l2 -> exists q, In q r /\ fst q == fst p) /\
+    nthp r (length r - 1) = (INF, 0) /\
+    (forall q, In q r -> snd q == oper (interp l1 (fst q)) (interp l2 (fst q))) /\
+    forall t, fst (nthp l1 0) <= t -> t <= INF -> interp r t == oper (interp l1 t) (interp l2 t).
+  Proof.
+    intros l1 l2 acc tail S1 S2 L1 L2 X1 X2 Y1 Y2 Sa St Hat Ha Ht Hval C1 C2.
+    intros r0. set (z := (INF, 0)). set (r := acc ++ tail ++ [z]). change r0 with r. clear r0.
+    assert (Er : r = (acc ++ tail) ++ [z]) by (unfold r; rewrite app_assoc; reflexivity).
+    assert (Sr : xsorted r).
+    { rewrite Er. apply xsorted_snoc; [apply xsorted_app; auto|].
+      intros q Hq. apply in_app_or in Hq. simpl. destruct Hq; auto. }
+    assert (Hz1 : interp l1 INF == 0).
+    { rewrite <- (interp_comp l1 _ _ X1). rewrite interp_at_breakpoint; auto. apply nth_In; lia. }
+    assert (Hz2 : interp l2 INF == 0).
+    { rewrite <- (interp_comp l2 _ _ X2). rewrite interp_at_breakpoint; auto. apply nth_In; lia. }
+    assert (Cov1 : forall p, In p l1 -> exists q, In q r /\ fst q == fst p).
+    { intros p Hp. destruct (In_nth _ _ pt0 Hp) as [i [Hi Ei]]. fold (nthp l1 i) in Ei.
+      destruct (Nat.eq_dec i (length l1 - 1)) as [e|ne].
+      - exists z. split; [rewrite Er; apply in_or_app; right; left; auto|]. rewrite <- Ei, e. simpl. symmetry; exact X1.
+      - destruct (C1 i ltac:(lia)) as [a [Ha' Ea]]. exists a. split; [rewrite Er; apply in_or_app; auto | rewrite <- Ei; exact Ea]. }
+    assert (Cov2 : forall p, In p l2 -> exists q, In q r /\ fst q == fst p).
+    { intros p Hp. destruct (In_nth _ _ pt0 Hp) as [i [Hi Ei]]. fold (nthp l2 i) in Ei.
+      destruct (Nat.eq_dec i (length l2 - 1)) as [e|ne].
+      - exists z. split; [rewrite Er; apply in_or_app; right; left; auto|]. rewrite <- Ei, e. simpl. symmetry; exact X2.
+      - destruct (C2 i ltac:(lia)) as [a [Ha' Ea]]. exists a. split; [rewrite Er; apply in_or_app; auto | rewrite <- Ei; exact Ea]. }
+    assert (Hv : forall q, In q r -> snd q == oper (interp l1 (fst q)) (interp l2 (fst q))).
+    { intros q Hq. rewrite Er in Hq. apply in_app_or in Hq. destruct Hq as [Hq|[Hq|[]]]; [apply Hval; auto|].
+      subst q; simpl. rewrite (oper_comp _ _ _ _ Hz1 Hz2). symmetry; exact oper_00. }
+    assert (Hne : r <> []) by (rewrite Er; destruct (acc ++ tail); discriminate).
+    assert (Hlast : nthp r (length r - 1) = z).
+    { unfold nthp. rewrite Er, app_length. simpl. replace (length (acc ++ tail) + 1 - 1)%nat with (length (acc ++ tail)) by lia.
+      rewrite app_nth2 by lia. rewrite Nat.sub_diag. reflexivity. }
+    split; [exact Sr|]. split; [exact Cov1|]. split; [exact Cov2|]. split; [exact Hlast|]. split; [exact Hv|].
+    intros t Ht0 Ht1.
+    apply (pl_combination_determined oper oper_comp oper_lin l1 l2 r); auto.
+    - destruct (Cov1 (nthp l1 0) ltac:(apply nth_In; lia)) as [q [Hq Eq]].
+      eapply Qle_trans; [apply (xsorted_first_le r q Sr Hq)|]. lra.
+    - rewrite Hlast. simpl. exact Ht1.
+  Qed.
+
+  Theorem merge_level_full : forall l1 l2 r,
+    xsorted l1 -> xsorted l2 -> (2 <= length l1)%nat -> (2 <= length l2)%nat ->
+    fst (nthp l1 0) == fst (nthp l2 0) ->
+    fst (nthp l1 (length l1 - 1)) == INF -> fst (nthp l2 (length l2 - 1)) == INF ->
+    snd (nthp l1 (length l1 - 2)) == 0 -> snd (nthp l1 (length l1 - 1)) == 0 ->
+    snd (nthp l2 (length l2 - 2)) == 0 -> snd (nthp l2 (length l2 - 1)) == 0 ->
+    merge_level oper l1 l2 = Some r ->
+    xsorted r /\ (forall p, In p l1 -> exists q, In q r /\ fst q == fst p) /\ (forall p, In p l2 -> exists q, In q r /\ fst q == fst p) /\
+    nthp r (length r - 1) = (INF, 0) /\
+    (forall q, In q r -> snd q == oper (interp l1 (fst q)) (interp l2 (fst q))) /\
+    forall t, fst (nthp l1 0) <= t -> t <= INF -> interp r t == oper (interp l1 t) (interp l2 t).
+  Proof.
+    intros l1 l2 r S1 S2 L1 L2 Hfirst X1 X2 Y12 Y11 Y22 Y21 H.
+    unfold merge_level in H.
+    destruct (merge_main (S (length l1 + length l2)) oper l1 l2 0 0 []) as [[[p q] acc]|] eqn:E; [|discriminate].
+    assert (MI0 : MI oper l1 l2 0 0 []).
+    { unfold MI. split; [lia|]. split; [lia|]. split; [left; auto|]. split; [constructor|].
+      split; [intros a []|]. split; [intros a []|]. split; intros i Hi; lia. }
+    destruct (merge_main_inv oper oper_comp l1 l2 S1 S2 Hfirst _ _ _ _ _ _ _ E MI0) as [[Ia [Ib [Ic [Ie [Ilt [If [Ig1 Ig2]]]]]]] Hexit].
+    assert (Hpq : (1 <= p /\ 1 <= q)%nat).
+    { destruct Ic as [[A B]|]; auto. exfalso. apply Hexit. subst; lia. }
+    destruct Hpq as [Hp1 Hq1].
+    fold (slice l1 p (length l1 - 1 - p)) in H. fold (slice l2 q (length l2 - 1 - q)) in H.
+    destruct (Nat.leb (length l2) (q + 1)) eqn:Eq.
+    - (* the second operand is exhausted: the rest of the first one is copied with oper(y,0) *)
+      apply Nat.leb_le in Eq. assert (Eq' : q = (length l2 - 1)%nat) by lia.
+      assert (Emax : Nat.max p (length l1 - 1) = (length l1 - 1)%nat) by lia. rewrite Emax in H.
+      assert (El : Nat.leb (length l1) (length l1 - 1 + 1) = true) by (apply Nat.leb_le; lia). rewrite El in H.
+      replace (length l2 - 1 - q)%nat with O in H by lia. unfold slice at 2 in H. simpl firstn in H. simpl map in H.
+      injection H as Hr. subst r. simpl app.
+      set (g := fun P : pt => (fst P, oper (snd P) 0)).
+      assert (Hsl : (p + (length l1 - 1 - p) <= length l1)%nat) by lia.
+      assert (Hin : forall b, In b (map g (slice l1 p (length l1 - 1 - p))) -> exists i, (p <= i <= length l1 - 2)%nat /\ b = g (nthp l1 i)).
+      { intros b Hb. apply in_map_iff in Hb. destruct Hb as [c [Ec Hc]]. destruct (slice_in _ _ _ _ Hsl Hc) as [i [Hi Ei]].
+        exists i. split; [lia|]. subst; auto. }
+      apply (assemble_full l1 l2 acc (map g (slice l1 p (length l1 - 1 - p)))); auto.
+      + apply xsorted_map_same_fst; [reflexivity | apply xsorted_slice; auto].
+      + intros a b Ha Hb. destruct (Hin b Hb) as [i [Hi Eb]]. subst b. simpl. destruct (Ilt a Ha) as [A _].
+        destruct (Nat.eq_dec i p) as [e|ne]; [subst; auto|]. eapply Qlt_trans; [exact A|]. apply xsorted_nth_lt; auto; lia.
+      + intros a Ha. destruct (Ilt a Ha) as [A _]. rewrite <- X1.
+        destruct (Nat.eq_dec p (length l1 - 1)) as [e|ne]; [rewrite <- e; auto|]. eapply Qlt_trans; [exact A|]. apply xsorted_nth_lt; auto; lia.
+      + intros b Hb. destruct (Hin b Hb) as [i [Hi Eb]]. subst b. simpl. rewrite <- X1. apply xsorted_nth_lt; auto; lia.
+      + intros a Ha. apply in_app_or in Ha. destruct Ha as [Ha|Hb]; [apply If; auto|].
+        destruct (Hin a Hb) as [i [Hi Eb]]. subst a. simpl. apply oper_comp; [apply nth_is_value; auto; lia|].
+        symmetry. apply zero_tail; auto.
+        destruct (Ig2 (q - 1)%nat ltac:(lia)) as [a [Ha Ea]]. destruct (Ilt a Ha) as [A _].
+        replace (length l2 - 2)%nat with (q - 1)%nat by lia. rewrite <- Ea.
+        destruct (Nat.eq_dec i p) as [e|ne]; [subst; lra|]. pose proof (xsorted_nth_lt l1 p i S1 ltac:(lia) ltac:(lia)). lra.
+      + intros i Hi. destruct (Nat.lt_ge_cases i p) as [Hlt|Hge].
+        * destruct (Ig1 i Hlt) as [a [Ha Ea]]. exists a; split; auto. apply in_or_app; auto.
+        * exists (g (nthp l1 i)). split; [|reflexivity]. apply in_or_app; right. apply in_map. apply in_slice; auto; lia.
+      + intros j Hj. destruct (Ig2 j ltac:(lia)) as [a [Ha Ea]]. exists a; split; auto. apply in_or_app; auto.
+    - (* the first operand is exhausted *)
+      apply Nat.leb_gt in Eq. assert (Ep' : p = (length l1 - 1)%nat) by lia.
+      assert (El : Nat.leb (length l1) (p + 1) = true) by (apply Nat.leb_le; lia). rewrite El in H.
+      injection H as Hr. subst r. simpl app.
+      set (g := fun R : pt => (fst R, oper 0 (snd R))).
+      assert (Hsl : (q + (length l2 - 1 - q) <= length l2)%nat) by lia.
+      assert (Hin : forall b, In b (map g (slice l2 q (length l2 - 1 - q))) -> exists i, (q <= i <= length l2 - 2)%nat /\ b = g (nthp l2 i)).
+      { intros b Hb. apply in_map_iff in Hb. destruct Hb as [c [Ec Hc]]. destruct (slice_in _ _ _ _ Hsl Hc) as [i [Hi Ei]].
+        exists i. split; [lia|]. subst; auto. }
+      apply (assemble_full l1 l2 acc (map g (slice l2 q (length l2 - 1 - q)))); auto.
+      + apply xsorted_map_same_fst; [reflexivity | apply xsorted_slice; auto].
+      + intros a b Ha Hb. destruct (Hin b Hb) as [i [Hi Eb]]. subst b. simpl. destruct (Ilt a Ha) as [_ A].
+        destruct (Nat.eq_dec i q) as [e|ne]; [subst; auto|]. eapply Qlt_trans; [exact A|]. apply xsorted_nth_lt; auto; lia.
+      + intros a Ha. destruct (Ilt a Ha) as [A _]. rewrite <- X1. rewrite <- Ep'. exact A.
+      + intros b Hb. destruct (Hin b Hb) as [i [Hi Eb]]. subst b. simpl. rewrite <- X2. apply xsorted_nth_lt; auto; lia.
+      + intros a Ha. apply in_app_or in Ha. destruct Ha as [Ha|Hb]; [apply If; auto|].
+        destruct (Hin a Hb) as [i [Hi Eb]]. subst a. simpl. apply oper_comp; [|apply nth_is_value; auto; lia].
+        symmetry. apply zero_tail; auto.
+        destruct (Ig1 (p - 1)%nat ltac:(lia)) as [a [Ha Ea]]. destruct (Ilt a Ha) as [_ A].
+        replace (length l1 - 2)%nat with (p - 1)%nat by lia. rewrite <- Ea.
+        destruct (Nat.eq_dec i q) as [e|ne]; [subst; lra|]. pose proof (xsorted_nth_lt l2 q i S2 ltac:(lia) ltac:(lia)). lra.
+      + intros i Hi. destruct (Ig1 i ltac:(lia)) as [a [Ha Ea]]. exists a; split; auto. apply in_or_app; auto.
+      + intros j Hj. destruct (Nat.lt_ge_cases j q) as [Hlt|Hge].
+        * destruct (Ig2 j Hlt) as [a [Ha Ea]]. exists a; split; auto. apply in_or_app; auto.
+        * exists (g (nthp l2 j)). split; [|reflexivity]. apply in_or_app; right. apply in_map. apply in_slice; auto; lia.
+  Qed.
+End MergeLevelFull.
+
+Lemma merge_main_prefix : forall oper l1 l2 fuel p q acc p' q' acc',
+  merge_main fuel oper l1 l2 p q acc = Some (p', q', acc') -> exists ext, acc' = acc ++ ext.
+Proof.
+  intros oper l1 l2. induction fuel as [|fuel IH]; intros p q acc p' q' acc' H; [discriminate|].
+  cbn [merge_main] in H. destruct (Nat.ltb (p + 1) (length l1) && Nat.ltb (q + 1) (length l2)).
+  2:{ inversion H; subst. exists []. rewrite app_nil_r; auto. }
+  destruct (Qlt_bool (fst (nthp l1 p)) (fst (nthp l2 q))).
+  - destruct (IH _ _ _ _ _ _ H) as [ext E]. eexists. rewrite E, <- app_assoc. reflexivity.
+  - destruct (Qlt_bool (fst (nthp l2 q)) (fst (nthp l1 p))); destruct (IH _ _ _ _ _ _ H) as [ext E]; eexists; rewrite E, <- app_assoc; reflexivity.
+Qed.
+Lemma merge_level_head : forall oper l1 l2 r, (2 <= length l1)%nat -> (2 <= length l2)%nat ->
+  fst (nthp l1 0) == fst (nthp l2 0) -> merge_level oper l1 l2 = Some r ->
+  nthp r 0 = (fst (nthp l2 0), oper (snd (nthp l1 0)) (snd (nthp l2 0))).
+Proof.
+  intros oper l1 l2 r L1 L2 Hf H. unfold merge_level in H.
+  destruct (merge_main (S (length l1 + length l2)) oper l1 l2 0 0 []) as [[[p q] acc]|] eqn:E; [|discriminate].
+  cbn [merge_main] in E.
+  assert (E1 : Nat.ltb (0 + 1) (length l1) && Nat.ltb (0 + 1) (length l2) = true).
+  { apply andb_true_intro; split; apply Nat.ltb_lt; lia. }
+  rewrite E1 in E.
+  assert (E2 : Qlt_bool (fst (nthp l1 0)) (fst (nthp l2 0)) = false).
+  { destruct (Qlt_bool (fst (nthp l1 0)) (fst (nthp l2 0))) eqn:EE; auto. apply Qlt_bool_iff'' in EE. lra. }
+  assert (E3 : Qlt_bool (fst (nthp l2 0)) (fst (nthp l1 0)) = false).
+  { destruct (Qlt_bool (fst (nthp l2 0)) (fst (nthp l1 0))) eqn:EE; auto. apply Qlt_bool_iff'' in EE. lra. }
+  rewrite E2, E3 in E. destruct (merge_main_prefix _ _ _ _ _ _ _ _ _ _ E) as [ext Eacc].
+  injection H as Hr. subst r acc. reflexivity.
+Qed.
+
+Section Closure.
+  Variable oper : Q -> Q -> Q.
+  Hypothesis oper_comp : forall a a' b b', a == a' -> b == b' -> oper a b == oper a' b'.
+  Hypothesis oper_lin : forall y1 y2 y1' y2' s,
+    oper (y1 + (y2 - y1) * s) (y1' + (y2' - y1') * s) == oper y1 y1' + (oper y2 y2' - oper y1 y1') * s.
+  Hypothesis oper_00 : oper 0 0 == 0.
+
+  (* levels are closed under the operation, which is pointwise, also when read back by compute_value_at_a_given_point *)
+  Theorem merge_level_closed : forall l1 l2, level3 l1 -> level3 l2 ->
+    exists r, merge_level oper l1 l2 = Some r /\ level3 r /\
+      (forall t, - INF <= t -> t <= INF -> interp r t == oper (interp l1 t) (interp l2 t)) /\
+      (forall t, - INF < t -> t < INF -> exists v, value_at [r] 0 t = Some v /\ v == oper (interp l1 t) (interp l2 t)).
+  Proof.
+    intros l1 l2 [S1 [L1 [F1 [X1 [Y10 [Y11 [Y12 Y13]]]]]]] [S2 [L2 [F2 [X2 [Y20 [Y21 [Y22 Y23]]]]]]].
+    destruct (merge_level_total oper l1 l2) as [r Hr]. exists r. split; auto.
+    assert (Hf : fst (nthp l1 0) == fst (nthp l2 0)) by (rewrite F1, F2; reflexivity).
+    destruct (merge_level_full oper oper_comp oper_lin oper_00 l1 l2 r S1 S2 ltac:(lia) ltac:(lia) Hf X1 X2 Y12 Y13 Y22 Y23 Hr)
+      as [Sr [Cov1 [Cov2 [Hlast [Hv Hpt]]]]].
+    pose proof (merge_level_head oper l1 l2 r ltac:(lia) ltac:(lia) Hf Hr) as Hhead.
+    assert (Hr0 : fst (nthp r 0) == - INF) by (rewrite Hhead; simpl; exact F2).
+    (* positions of the second and the second-to-last abscissae of the operands inside r *)
+    assert (Hpos : forall (l : list pt), xsorted l -> (3 <= length l)%nat -> fst (nthp l 0) == - INF -> fst (nthp l (length l - 1)) == INF ->
+              (forall p, In p l -> exists q, In q r /\ fst q == fst p) ->
+              (3 <= length r)%nat /\ fst (nthp r 1) <= fst (nthp l 1) /\ fst (nthp l (length l - 2)) <= fst (nthp r (length r - 2))).
+    { intros l Sl Ll Fl Xl Cov.
+      assert (A1 : fst (nthp l 0) < fst (nthp l 1)) by (apply xsorted_nth_lt; auto; lia).
+      assert (A2 : fst (nthp l (length l - 2)) < fst (nthp l (length l - 1))) by (apply xsorted_nth_lt; auto; lia).
+      assert (A3 : fst (nthp l 1) <= fst (nthp l (length l - 2))).
+      { destruct (Nat.eq_dec 1 (length l - 2)) as [e|ne]; [rewrite <- e; apply Qle_refl | apply Qlt_le_weak; apply xsorted_nth_lt; auto; lia]. }
+      destruct (Cov (nthp l 1) ltac:(apply nth_In; lia)) as [q1 [Hq1 Eq1]].
+      destruct (Cov (nthp l (length l - 2)) ltac:(apply nth_In; lia)) as [q2 [Hq2 Eq2]].
+      destruct (In_nth _ _ pt0 Hq1) as [j1 [Hj1 Ej1]]. fold (nthp r j1) in Ej1.
+      destruct (In_nth _ _ pt0 Hq2) as [j2 [Hj2 Ej2]]. fold (nthp r j2) in Ej2.
+      assert (Hlastx : fst (nthp r (length r - 1)) == INF) by (rewrite Hlast; reflexivity).
+      assert (J1 : (1 <= j1)%nat).
+      { destruct j1; [|lia]. exfalso. rewrite <- Ej1 in Eq1. lra. }
+      assert (J2 : (j2 <= length r - 2)%nat).
+      { destruct (Nat.eq_dec j2 (length r - 1)) as [e|ne]; [|lia]. exfalso. rewrite <- Ej2, e in Eq2. lra. }
+      assert (J12 : (j1 <= j2)%nat).
+      { destruct (Nat.le_gt_cases j1 j2) as [|Hgt]; auto. exfalso.
+        pose proof (xsorted_nth_lt r j2 j1 Sr Hgt Hj1). rewrite Ej1, Ej2, Eq1, Eq2 in H. lra. }
+      split; [lia|]. split.
+      - rewrite <- Eq1, <- Ej1. destruct (Nat.eq_dec j1 1) as [e|ne]; [rewrite e; apply Qle_refl | apply Qlt_le_weak; apply xsorted_nth_lt; auto; lia].
+      - rewrite <- Eq2, <- Ej2. destruct (Nat.eq_dec j2 (length r - 2)) as [e|ne]; [rewrite e; apply Qle_refl | apply Qlt_le_weak; apply xsorted_nth_lt; auto; lia]. }
+    destruct (Hpos l1 S1 L1 F1 X1 Cov1) as [Lr [P11 P12]]. destruct (Hpos l2 S2 L2 F2 X2 Cov2) as [_ [P21 P22]].
+    assert (Hzero : forall i, (i < length r)%nat -> (fst (nthp r i) <= fst (nthp r 1) \/ fst (nthp r (length r - 2)) <= fst (nthp r i)) -> snd (nthp r i) == 0).
+    { intros i Hi Hc. rewrite (Hv (nthp r i)) by (apply nth_In; auto). rewrite <- oper_00. apply oper_comp.
+      - destruct Hc as [Hc|Hc]; [apply zero_head; auto; [lia | lra] | apply zero_tail; auto; [lia | lra]].
+      - destruct Hc as [Hc|Hc]; [apply zero_head; auto; [lia | lra] | apply zero_tail; auto; [lia | lra]]. }
+    assert (Hl3 : level3 r).
+    { unfold level3. split; [exact Sr|]. split; [exact Lr|]. split; [exact Hr0|]. split; [rewrite Hlast; reflexivity|].
+      split; [apply Hzero; [lia | left; apply Qlt_le_weak; apply xsorted_nth_lt; auto; lia]|].
+      split; [apply Hzero; [lia | left; apply Qle_refl]|].
+      split; [apply Hzero; [lia | right; apply Qle_refl]|].
+      apply Hzero; [lia | right; apply Qlt_le_weak; apply xsorted_nth_lt; auto; lia]. }
+    split; [exact Hl3|]. split.
+    - intros t Ht0 Ht1. apply Hpt; [rewrite F1; exact Ht0 | exact Ht1].
+    - intros t Ht0 Ht1. destruct Hl3 as [_ [_ [_ [Xr [Yr0 [Yr1 [Yr2 Yr3]]]]]]].
+      destruct (value_at_is_interp r t Sr Lr Yr0 Yr1 Yr2 Yr3 ltac:(lra) ltac:(lra)) as [v [Hv1 Hv2]].
+      exists v. split; auto. rewrite Hv2. apply Hpt; [rewrite F1; lra | lra].
+  Qed.
+End Closure.
+
+(* ---------------- whole landscapes *)
+Lemma nth_map_lt : forall (f : pt -> pt) l i d d', (i < length l)%nat -> nth i (map f l) d = f (nth i l d').
+Proof.
+  induction l as [|a l IH]; intros i d d' H; [simpl in H; lia|]. destruct i; [reflexivity|]. simpl. apply IH. simpl in H; lia.
+Qed.
+Lemma value_at_cons : forall l rest k t, value_at (l :: rest) (S k) t = value_at rest k t.
+Proof. intros; unfold value_at. reflexivity. Qed.
+Lemma value_at_nil : forall k t, value_at [] k t = Some 0.
+Proof. intros; reflexivity. Qed.
+Definition lev (a : list (list pt)) (k : nat) (t : Q) : Q := if Nat.ltb k (length a) then interp (nth k a []) t else 0.
+Lemma lev_cons0 : forall l rest t, lev (l :: rest) 0 t = interp l t.
+Proof. reflexivity. Qed.
+Lemma lev_consS : forall l rest k t, lev (l :: rest) (S k) t = lev rest k t.
+Proof. intros; unfold lev. simpl. reflexivity. Qed.
+Lemma lev_nil : forall k t, lev [] k t = 0.
+Proof. intros; unfold lev; simpl. reflexivity. Qed.
+
+Section Lands.
+  Variable oper : Q -> Q -> Q.
+  Hypothesis oper_comp : forall a a' b b', a == a' -> b == b' -> oper a b == oper a' b'.
+  Hypothesis oper_lin : forall y1 y2 y1' y2' s,
+    oper (y1 + (y2 - y1) * s) (y1' + (y2' - y1') * s) == oper y1 y1' + (oper y2 y2' - oper y1 y1') * s.
+  Hypothesis oper_00 : oper 0 0 == 0.
+
+  (* a level of one operand alone: the other operand is the zero function *)
+  Section OneSided.
+    Variable g : Q -> Q.           (* y |-> oper y 0  or  y |-> oper 0 y *)
+    Hypothesis g_comp : forall a a', a == a' -> g a == g a'.
+    Hypothesis g_lin : forall y1 y2 s, g (y1 + (y2 - y1) * s) == g y1 + (g y2 - g y1) * s.
+    Hypothesis g_0 : g 0 == 0.
+    Lemma interp_from_map1 : forall tl p t,
+      interp_from (fst p, g (snd p)) (map (fun P => (fst P, g (snd P))) tl) t == g (interp_from p tl t).
+    Proof.
+      induction tl as [|q tl IH]; intros p t; simpl; [reflexivity|].
+      destruct (Qle_bool t (fst q)); [unfold line_val; simpl; rewrite g_lin; reflexivity | apply IH].
+    Qed.
+    Lemma interp_map1 : forall l t, l <> [] -> interp (map (fun P => (fst P, g (snd P))) l) t == g (interp l t).
+    Proof.
+      intros [|p l] t H; [congruence|]. simpl. destruct (Qle_bool t (fst p)); [reflexivity | apply interp_from_map1].
+    Qed.
+    Lemma level3_intro : forall m l, length m = length l ->
+      (forall i, (i < length l)%nat -> fst (nthp m i) = fst (nthp l i) /\ snd (nthp m i) == g (snd (nthp l i))) ->
+      xsorted m -> level3 l -> level3 m.
+    Proof.
+      intros m l Hlen Hn Sm [S [L [F [X [Y0 [Y1 [Y2 Y3]]]]]]]. unfold level3. rewrite Hlen.
+      destruct (Hn O ltac:(lia)) as [A0 B0]. destruct (Hn 1%nat ltac:(lia)) as [A1 B1].
+      destruct (Hn (length l - 2)%nat ltac:(lia)) as [A2 B2]. destruct (Hn (length l - 1)%nat ltac:(lia)) as [A3 B3].
+      split; [exact Sm|]. split; [exact L|]. split; [rewrite A0; exact F|]. split; [rewrite A3; exact X|].
+      split; [rewrite B0, <- g_0; apply g_comp; exact Y0|]. split; [rewrite B1, <- g_0; apply g_comp; exact Y1|].
+      split; [rewrite B2, <- g_0; apply g_comp; exact Y2 | rewrite B3, <- g_0; apply g_comp; exact Y3].
+    Qed.
+    Lemma level3_map1 : forall l, level3 l -> level3 (map (fun P => (fst P, g (snd P))) l).
+    Proof.
+      intros l Hl. apply (level3_intro _ l); auto.
+      - apply map_length.
+      - intros i Hi. unfold nthp. rewrite (nth_map_lt _ l i pt0 pt0) by auto. simpl. split; reflexivity.
+      - apply xsorted_map_same_fst; [reflexivity | apply Hl].
+    Qed.
+    Lemma value_at_map1 : forall a k t, Forall level3 a -> - INF < t -> t < INF ->
+      exists v, value_at (map (map (fun P => (fst P, g (snd P)))) a) k t = Some v /\ v == g (lev a k t).
+    Proof.
+      induction a as [|l a IH]; intros k t Ha Ht0 Ht1.
+      - exists 0. split; [reflexivity|]. rewrite lev_nil. symmetry; exact g_0.
+      - inversion Ha as [|? ? Hl Ha']; subst. destruct k as [|k].
+        + simpl map. rewrite (value_at_nth _ 0) by (simpl; lia). simpl nth.
+          destruct (level3_map1 l Hl) as [S [L [F [X [Y0 [Y1 [Y2 Y3]]]]]]].
+          destruct (value_at_is_interp _ t S L Y0 Y1 Y2 Y3 ltac:(lra) ltac:(lra)) as [v [Hv1 Hv2]].
+          exists v. split; auto. rewrite Hv2, lev_cons0. apply interp_map1.
+          destruct Hl as [_ [Ll _]]. destruct l; [simpl in Ll; lia | discriminate].
+        + simpl map. rewrite value_at_cons, lev_consS. apply IH; auto.
+    Qed.
+  End OneSided.
+
+  Theorem op_levels_pointwise : forall a b, Forall level3 a -> Forall level3 b ->
+    exists s, op_levels oper a b = Some s /\
+      forall k t, - INF < t -> t < INF -> exists v, value_at s k t = Some v /\ v == oper (lev a k t) (lev b k t).
+  Proof.
+    assert (G1c : forall a a', a == a' -> oper a 0 == oper a' 0) by (intros; apply oper_comp; [auto | reflexivity]).
+    assert (G2c : forall a a', a == a' -> oper 0 a == oper 0 a') by (intros; apply oper_comp; [reflexivity | auto]).
+    assert (G1l : forall y1 y2 s, oper (y1 + (y2 - y1) * s) 0 == oper y1 0 + (oper y2 0 - oper y1 0) * s).
+    { intros. rewrite <- oper_lin. apply oper_comp; [reflexivity | ring]. }
+    assert (G2l : forall y1 y2 s, oper 0 (y1 + (y2 - y1) * s) == oper 0 y1 + (oper 0 y2 - oper 0 y1) * s).
+    { intros. rewrite <- oper_lin. apply oper_comp; [ring | reflexivity]. }
+    induction a as [|l1 a IH]; intros b Ha Hb.
+    - exists (map (map (fun R => (fst R, oper 0 (snd R)))) b). split; [reflexivity|].
+      intros k t Ht0 Ht1. destruct (value_at_map1 (fun y => oper 0 y) G2c G2l oper_00 b k t Hb Ht0 Ht1) as [v [H1 H2]].
+      exists v. split; [exact H1|]. rewrite H2. reflexivity.
+    - destruct b as [|l2 b].
+      + exists (map (map (fun P => (fst P, oper (snd P) 0))) (l1 :: a)). split; [reflexivity|].
+        intros k t Ht0 Ht1. destruct (value_at_map1 (fun y => oper y 0) G1c G1l oper_00 (l1 :: a) k t Ha Ht0 Ht1) as [v [H1 H2]].
+        exists v. split; [exact H1|]. rewrite H2. reflexivity.
+      + inversion Ha as [|? ? Hl1 Ha']; subst. inversion Hb as [|? ? Hl2 Hb']; subst.
+        destruct (merge_level_closed oper oper_comp oper_lin oper_00 l1 l2 Hl1 Hl2) as [r [Hr [_ [_ Hval]]]].
+        destruct (IH b Ha' Hb') as [s [Hs Hrec]].
+        exists (r :: s). split; [cbn [op_levels]; rewrite Hr, Hs; reflexivity|].
+        intros k t Ht0 Ht1. destruct k as [|k].
+        * rewrite (value_at_nth _ 0) by (simpl; lia). simpl nth. rewrite !lev_cons0. apply Hval; auto.
+        * rewrite value_at_cons, !lev_consS. apply Hrec; auto.
+  Qed.
+End Lands.
+
+Definition admissible (D : list (Q * Q)) : Prop := valid_diagram D /\ eps_separated D /\ bounded_diagram D.
+
+Lemma construct_levels3 : forall D land, admissible D -> construct D 0 = Some land ->
+  Forall level3 land /\ forall k t, - INF < t -> t < INF -> lev land k t == lambda D k t.
+Proof.
+  intros D land [Hv [He Hb]] Hc.
+  change (construct D 0) with (sweep_all (S (length D)) 0 0 (first_cps D) []) in Hc.
+  destruct (sweep_all_levels _ _ _ _ _ Hc) as [n [Hlen [_ [Hres Hlev]]]]. simpl in Hlen, Hlev.
+  assert (Hs : lexsorted (first_cps D)) by (apply lexsorted_map_to_cp; apply sort_bars_sorted).
+  assert (Hin : forall c, In c (first_cps D) -> exists b, In b D /\ c = to_cp b).
+  { intros c Hc'. unfold first_cps in Hc'. apply in_map_iff in Hc'. destruct Hc' as [b [Hb' Hin]]. exists b; split; auto.
+    eapply Permutation_in; [apply sort_bars_perm | exact Hin]. }
+  assert (Hv' : validl (first_cps D)).
+  { intros c Hc'. destruct (Hin c Hc') as [b [Hb' Ec]]; subst. rewrite to_cp_B, to_cp_D. apply Hv; auto. }
+  assert (He' : epssep (first_cps D)).
+  { intros a b Ha Hb' Hab. destruct (Hin a Ha) as [a' [Ha' Ea]]. destruct (Hin b Hb') as [b' [Hb'' Eb]]. subst.
+    rewrite !to_cp_B. apply He; auto. rewrite <- (almost_equal_comp _ _ _ _ (to_cp_B a') (to_cp_B b')). exact Hab. }
+  assert (Hb' : boundedl (first_cps D)).
+  { intros c Hc'. destruct (Hin c Hc') as [b [Hb'' Ec]]; subst. rewrite to_cp_B, to_cp_D. apply Hb; auto. }
+  assert (Hlevel : forall k, (k < n)%nat -> exists R, residual k (first_cps D) = Some R /\ level3 (nth k land []) /\
+                     forall t, - INF < t -> interp (nth k land []) t == mx t R).
+  { intros k Hk. destruct (Hlev k Hk) as [R [F [newc [HR [HF HnF]]]]].
+    destruct (residual_values _ _ _ HR Hs Hv' He') as [[HsR [HvR HeR]] _].
+    pose proof (residual_bounded _ _ _ HR Hb') as HbR.
+    destruct (one_level_envelope _ _ _ HF HsR HvR HeR HbR) as [Hxs [Hl3 [Y0 [Y1 [Y2 [Y3 [X0 [X1 Hfun]]]]]]]].
+    exists R. rewrite HnF. split; auto. split; auto. unfold level3. repeat split; auto. }
+  split.
+  - apply Forall_forall. intros l Hl. destruct (In_nth _ _ [] Hl) as [k [Hk Ek]]. rewrite <- Ek.
+    destruct (Hlevel k ltac:(lia)) as [R [_ [H3 _]]]. exact H3.
+  - intros k t Ht0 Ht1. unfold lev. destruct (Nat.ltb k (length land)) eqn:E.
+    + apply Nat.ltb_lt in E. destruct (Hlevel k ltac:(lia)) as [R [HR [_ Hfun]]].
+      rewrite Hfun by auto. rewrite mx_is_top.
+      rewrite <- (sweep_residual_lambda D k R Hv He HR t 0). rewrite Nat.add_0_r. reflexivity.
+    + apply Nat.ltb_ge in E. replace k with (n + (k - n))%nat by lia.
+      rewrite (sweep_residual_lambda D n [] Hv He Hres t (k - n)). simpl. destruct (k - n)%nat; reflexivity.
+Qed.
+
+Section LandscapeOps.
+  Variable oper : Q -> Q -> Q.
+  Hypothesis oper_comp : forall a a' b b', a == a' -> b == b' -> oper a b == oper a' b'.
+  Hypothesis oper_lin : forall y1 y2 y1' y2' s,
+    oper (y1 + (y2 - y1) * s) (y1' + (y2' - y1') * s) == oper y1 y1' + (oper y2 y2' - oper y1 y1') * s.
+  Hypothesis oper_00 : oper 0 0 == 0.
+  Theorem landscapes_op_pointwise : forall A B, admissible A -> admissible B ->
+    exists la lb s, construct A 0 = Some la /\ construct B 0 = Some lb /\ op_levels oper la lb = Some s /\
+      forall k t, - INF < t -> t < INF -> exists v, value_at s k t = Some v /\ v == oper (lambda A k t) (lambda B k t).
+  Proof.
+    intros A B HA HB. destruct (construct_total A) as [la Ha]. destruct (construct_total B) as [lb Hb].
+    destruct (construct_levels3 A la HA Ha) as [La Fa]. destruct (construct_levels3 B lb HB Hb) as [Lb Fb].
+    destruct (op_levels_pointwise oper oper_comp oper_lin oper_00 la lb La Lb) as [s [Hs Hval]].
+    exists la, lb, s. repeat split; auto. intros k t Ht0 Ht1.
+    destruct (Hval k t Ht0 Ht1) as [v [H1 H2]]. exists v. split; auto. rewrite H2. apply oper_comp; [apply Fa | apply Fb]; auto.
+  Qed.
+End LandscapeOps.
+
+Theorem landscape_sum : forall A B, admissible A -> admissible B ->
+  exists la lb s, construct A 0 = Some la /\ construct B 0 = Some lb /\ land_add la lb = Some s /\
+    forall k t, - INF < t -> t < INF -> exists v, value_at s k t = Some v /\ v == lambda A k t + lambda B k t.
+Proof.
+  intros A B HA HB.
+  destruct (landscapes_op_pointwise radd) with (A := A) (B := B) as [la [lb [s [H1 [H2 [H3 H4]]]]]]; auto.
+  - intros a a' b b' Ha Hb. rewrite !radd_eq, Ha, Hb. reflexivity.
+  - intros. rewrite !radd_eq. ring.
+  - rewrite radd_eq. ring.
+  - exists la, lb, s. repeat split; auto. intros k t Ht0 Ht1. destruct (H4 k t Ht0 Ht1) as [v [G1 G2]].
+    exists v. split; auto. rewrite G2. apply radd_eq.
+Qed.
+Theorem landscape_difference : forall A B, admissible A -> admissible B ->
+  exists la lb s, construct A 0 = Some la /\ construct B 0 = Some lb /\ land_sub la lb = Some s /\
+    forall k t, - INF < t -> t < INF -> exists v, value_at s k t = Some v /\ v == lambda A k t - lambda B k t.
+Proof.
+  intros A B HA HB.
+  destruct (landscapes_op_pointwise rsub) with (A := A) (B := B) as [la [lb [s [H1 [H2 [H3 H4]]]]]]; auto.
+  - intros a a' b b' Ha Hb. rewrite !rsub_eq, Ha, Hb. reflexivity.
+  - intros. rewrite !rsub_eq. ring.
+  - rewrite rsub_eq. ring.
+  - exists la, lb, s. repeat split; auto. intros k t Ht0 Ht1. destruct (H4 k t Ht0 Ht1) as [v [G1 G2]].
+    exists v. split; auto. rewrite G2. apply rsub_eq.
+Qed.
+
+Theorem landscape_scale : forall A c, admissible A ->
+  exists la, construct A 0 = Some la /\
+    forall k t, - INF < t -> t < INF -> exists v, value_at (land_scale c la) k t = Some v /\ v == c * lambda A k t.
+Proof.
+  intros A c HA. destruct (construct_total A) as [la Ha]. exists la. split; auto.
+  destruct (construct_levels3 A la HA Ha) as [La Fa]. intros k t Ht0 Ht1.
+  destruct (value_at_map1 (fun y => rmul c y)) with (a := la) (k := k) (t := t) as [v [H1 H2]]; auto.
+  - intros a a' H. rewrite !rmul_eq, H. reflexivity.
+  - intros. rewrite !rmul_eq. ring.
+  - rewrite rmul_eq. ring.
+  - exists v. split; [exact H1|]. rewrite H2, rmul_eq, Fa by auto. reflexivity.
+Qed.
+
+Theorem merge_level_closed_add : forall l1 l2, level3 l1 -> level3 l2 ->
+  exists r, merge_level radd l1 l2 = Some r /\ level3 r /\
+    (forall t, - INF <= t -> t <= INF -> interp r t == radd (interp l1 t) (interp l2 t)) /\
+    (forall t, - INF < t -> t < INF -> exists v, value_at [r] 0 t = Some v /\ v == radd (interp l1 t) (interp l2 t)).
+Proof.
+  apply (merge_level_closed radd).
+  - intros a a' b b' Ha Hb. rewrite !radd_eq, Ha, Hb. reflexivity.
+  - intros. rewrite !radd_eq. ring.
+  - rewrite radd_eq. ring.
+Qed.
